@@ -1785,6 +1785,9 @@ namespace awkward {
 
     util::Parameters parameters(parameters_);
     util::merge_parameters(parameters, other.get()->parameters());
+    if (util::parameter_equals(parameters, "__array__", "\"categorical\"")) {
+      parameters.erase("__array__");   // concatenated categories are not unique
+    }
 
     return std::make_shared<IndexedArrayOf<int64_t, ISOPTION>>(
       Identities::none(),
@@ -1965,6 +1968,10 @@ namespace awkward {
 
     ContentPtrVec tail_contents(contents.begin() + 1, contents.end());
     ContentPtr nextcontent = contents[0].get()->mergemany(tail_contents);
+
+    if (util::parameter_equals(parameters, "__array__", "\"categorical\"")) {
+      parameters.erase("__array__");   // concatenated categories are not unique
+    }
 
     ContentPtr next(nullptr);
     if (is_option) {
